@@ -296,6 +296,12 @@ def c14f(ctx, tu):
                 if cf.qe.rsplit("::", 1)[0] != cur.qe.rsplit("::", 1)[0]:
                     break            # only a helper of the same class is folded into its entry point
                 a = (e.get("args") or [None] * (pi + 1))[pi] if pi < len(e.get("args") or ()) else None
+                a = lib.strip_casts(a)
+                if isinstance(a, list) and a[:1] == ["member"] and a[2] == ["this"]:
+                    # bound to a member of the object the entry point was called on: it lives exactly as long as
+                    # `this` would in a member coroutine (the handler object belongs to the expectation)
+                    bad = None
+                    break
                 if not (isinstance(a, list) and a[:1] == ["param"]):
                     break
                 cur, pi = cf, a[1]
